@@ -237,7 +237,7 @@ pub fn run(ctx: &Ctx, rep: &mut Report) {
     }
 
     // ---- random (count, number) pairs in the variable-length regime + random full headers --------
-    let n_pairs = ctx.tier.pick(400_000u64, 8_000_000u64);
+    let n_pairs = ctx.tier.pick(3_000_000u64, 60_000_000u64);
     rep.prop(
         "variable-length-pairs",
         "proptest: size = 0xFFFF, arbitrary (count, number) with boosted edge values; non-trivial = both halves non-zero",
@@ -255,7 +255,7 @@ pub fn run(ctx: &Ctx, rep: &mut Report) {
         |s| CaseInfo::new(s.seg_count != 0 && s.seg_num != 0).class(s.seg_count >= 0x8000, "count-high-bit"),
         check_header,
     );
-    let n_layout = ctx.tier.pick(200_000u64, 4_000_000u64);
+    let n_layout = ctx.tier.pick(1_500_000u64, 30_000_000u64);
     rep.prop(
         "layout-random",
         "proptest: every header field an arbitrary value of its wire type (type code boosted to 2/5/15/31, channel from its six codes), 12 random RPG bytes; non-trivial = size >= 32768 or size == 0xFFFF",
